@@ -146,8 +146,7 @@ func (in *Interp) parseInt(s *StrVal, base, bitSize int, signed bool) Value {
 	}
 	if signed {
 		for _, sign := range []byte{'-', '+'} {
-			v, ok := constBool(st.Eq(bs[0], st.BV(uint64(sign), 8)))
-			if !ok || v {
+			if in.decided(st.Eq(bs[0], st.BV(uint64(sign), 8))) != 0 {
 				panic(in.unsupported("parse of a string with a possible sign"))
 			}
 		}
